@@ -588,3 +588,344 @@ Proof. intros H. pose proof (normalize_good O n t) as G. rewrite H in G. apply G
 Corollary normalize_sorted O n t u offs :
   find_ranges O -> normalize O n t = Ok u offs -> StronglySorted le offs.
 Proof. intros HR H. pose proof (normalize_good O n t) as G. rewrite H in G. apply G, HR. Qed.
+
+(* ------------------------------------------------------------------ consequences of chunks *)
+Lemma byte_in_char_from u : forall pos p, pos <= p < pos + blen u ->
+  exists q c k, In (q, c) (indexed_from pos u) /\ k < len8 c /\ p = q + k.
+Proof.
+  induction u as [|c0 r IH]; intros pos p Hp; cbn [blen indexed_from] in *; [lia|].
+  destruct (Nat.lt_ge_cases p (pos + len8 c0)) as [Hlt|Hge].
+  - exists pos, c0, (p - pos). split; [left; reflexivity|lia].
+  - destruct (IH (pos + len8 c0) p) as [q [c [k [Hin Hk]]]]; [lia|].
+    exists q, c, k. split; [right; exact Hin|exact Hk].
+Qed.
+
+Lemma nth_repeat_lt (o : nat) n k d : k < n -> nth k (repeat o n) d = o.
+Proof.
+  intros H. apply (repeat_spec n o). apply nth_In. rewrite repeat_length. exact H.
+Qed.
+
+Lemma chunks_char_start t u offs q c :
+  chunks t u offs -> In (q, c) (indexed u) -> boundary t (nth q offs 0).
+Proof.
+  intros H Hin. destruct (chunks_lookup _ _ _ H q c Hin) as [ch [Hch Hn]].
+  specialize (Hn 0 0 (len8_pos c)). rewrite Nat.add_0_r in Hn. rewrite Hn.
+  destruct (chunk_head _ _ _ Hch) as [o1 [rest [-> Hb]]]. exact Hb.
+Qed.
+
+Lemma chunks_excluding_F16 t u offs : chunks t u offs ->
+  forall p, p < length offs -> boundary t (nth p offs 0) \/ F16_class t u offs p.
+Proof.
+  intros H p Hp. rewrite (chunks_length _ _ _ H) in Hp.
+  destruct (byte_in_char_from u 0 p) as [q [c [k [Hin [Hk ->]]]]]; [lia|].
+  fold (indexed u) in Hin.
+  destruct (chunks_lookup _ _ _ H q c Hin) as [ch [Hch Hn]].
+  pose proof (Hn k 0 Hk) as Hnk. pose proof (Hn 0 0 (len8_pos c)) as Hn0.
+  rewrite Nat.add_0_r in Hn0. destruct Hch as [o Hb|o Ho].
+  - left. rewrite Hnk, nth_repeat_lt by exact Hk. exact Hb.
+  - rewrite seq_nth in Hnk by exact Hk. rewrite seq_nth in Hn0 by apply len8_pos.
+    rewrite Nat.add_0_r in Hn0. destruct k as [|k].
+    + left. rewrite Nat.add_0_r. rewrite Hn0. eapply boundary_start; exact Ho.
+    + right. exists q, c, (S k). split; [exact Hin|]. split; [lia|]. split; [reflexivity|].
+      split; [rewrite Hnk, Hn0; reflexivity|rewrite Hn0; exact Ho].
+Qed.
+
+Lemma indexed_disjoint t : forall p o c o' c',
+  In (o, c) (indexed_from p t) -> In (o', c') (indexed_from p t) ->
+  o' <= o \/ o + len8 c <= o'.
+Proof.
+  induction t as [|c0 r IH]; intros p o c o' c' H H'; cbn [indexed_from In] in *; [tauto|].
+  destruct H as [H|H], H' as [H'|H'].
+  - inversion H; inversion H'; subst. lia.
+  - inversion H; subst. apply indexed_from_bounds in H'. lia.
+  - inversion H'; subst. apply indexed_from_bounds in H. lia.
+  - eapply IH; eauto.
+Qed.
+
+Lemma inside_char_not_boundary t o c k :
+  In (o, c) (indexed t) -> 0 < k < len8 c -> ~ boundary t (o + k).
+Proof.
+  intros Hin Hk [[c' Hin']|He].
+  - destruct (indexed_disjoint t 0 o c (o + k) c' Hin Hin'); lia.
+  - apply indexed_from_bounds in Hin. lia.
+Qed.
+
+Lemma F16_class_not_boundary t u offs p : F16_class t u offs p -> ~ boundary t (nth p offs 0).
+Proof.
+  intros [q [c [k [_ [Hk [_ [E Hin]]]]]]]. rewrite E. eapply inside_char_not_boundary; eauto.
+Qed.
+
+Lemma indexed_from_In pos u q c : In (q, c) (indexed_from pos u) -> In c u.
+Proof.
+  revert pos; induction u as [|c0 r IH]; intros pos H; cbn [indexed_from In] in *; [tauto|].
+  destruct H as [H|H]; [inversion H; auto|right; eapply IH; exact H].
+Qed.
+
+Lemma chunks_ascii_output t u offs : chunks t u offs ->
+  (forall c, In c u -> len8 c = 1) -> Forall (boundary t) offs.
+Proof.
+  intros H Hasc. apply Forall_forall. intros x Hx.
+  destruct (In_nth _ _ 0 Hx) as [p [Hp <-]].
+  destruct (chunks_excluding_F16 _ _ _ H p Hp) as [Hb|[q [c [k [Hin [Hk _]]]]]]; [exact Hb|].
+  apply indexed_from_In in Hin. apply Hasc in Hin. lia.
+Qed.
+
+Lemma mono_idx l : StronglySorted le l -> monotone l.
+Proof. intros H i j Hij Hj. apply ss_nth; assumption. Qed.
+
+Lemma mono_idx_inv l : monotone l -> StronglySorted le l.
+Proof.
+  induction l as [|x l IH]; intros H; constructor.
+  - apply IH. intros i j Hij Hj. apply (H (S i) (S j)); cbn [length]; lia.
+  - apply Forall_forall. intros y Hy. destruct (In_nth _ _ 0 Hy) as [k [Hk <-]].
+    apply (H 0 (S k)); cbn [length]; lia.
+Qed.
+
+(* ------------------------------------------------------------------ anchored configurations *)
+Lemma bert_anchored O lower strip t : lower || strip = true ->
+  Forall (boundary t) (snd (bert O lower strip t)).
+Proof.
+  intros Ha. unfold bert.
+  replace (negb lower && negb strip) with false by (destruct lower, strip; cbn in *; congruence).
+  cbn [snd]. apply Forall_forall. intros x Hx. apply in_flat_map in Hx.
+  destruct Hx as [[o cs] [Hp Hx]]. apply in_map_iff in Hp. destruct Hp as [[o' c] [E Hin]].
+  cbn [fst snd] in *. inversion E; subst.
+  pose proof (Forall_eq_rep_offsets o (bert_char O lower strip c)) as F.
+  rewrite Forall_forall in F. apply F in Hx. subst x. eapply boundary_start; exact Hin.
+Qed.
+
+Lemma unicode_anchored O f t : Forall (boundary t) (snd (unicode O f t)).
+Proof.
+  unfold unicode. cbn [snd].
+  destruct (uni_fold_inv O f t (indexed t) 0 []) as [hi [Hf _]].
+  - apply indexed_from_sorted.
+  - apply Forall_forall. intros x Hx. split; [exact Hx|lia].
+  - split; constructor.
+  - apply Forall_forall. intros x Hx. apply in_flat_map in Hx. destruct Hx as [[c o] [Hp Hx]].
+    cbn [fst snd] in Hx. apply repeat_spec in Hx. subst x. apply in_rev in Hp.
+    rewrite Forall_forall in Hf. destruct (Hf _ Hp) as [[c0 Hin] _]. cbn [snd] in Hin.
+    eapply boundary_start; exact Hin.
+Qed.
+
+Lemma seq_step_good O t acc n : good O t acc -> good O t (seq_step O (blen t) acc n).
+Proof.
+  intros Hacc. apply (seq_fold_good O t [n]); [|exact Hacc].
+  constructor; [|constructor]. intros t'. apply normalize_good.
+Qed.
+
+Definition all_bnd (t : list N) (r : result) : Prop :=
+  match r with Ok _ offs => Forall (boundary t) offs | _ => True end.
+
+Lemma seq_fold_anchored O t (l : list norm) :
+  Forall (fun n => forall t', anchored n = true -> all_bnd t' (normalize O n t')) l ->
+  forall acc, good O t acc -> existsb anchored l = true \/ all_bnd t acc ->
+  all_bnd t (fold_left (seq_step O (blen t)) l acc).
+Proof.
+  induction 1 as [|n l Hn Hl IH]; intros acc Hacc Hor; cbn [fold_left existsb] in *.
+  - destruct Hor as [Hor|Hor]; [discriminate|exact Hor].
+  - apply IH; [apply seq_step_good; exact Hacc|].
+    destruct (existsb anchored l) eqn:El; [left; reflexivity|right].
+    rewrite orb_false_r in Hor. unfold seq_step.
+    destruct acc as [m offs1| |]; cbn [all_bnd]; auto.
+    specialize (Hn m). pose proof (normalize_good O n m) as Gn.
+    destruct (normalize O n m) as [u next| |]; cbn [all_bnd good] in *; auto.
+    destruct Hacc as [Hc1 _]. unfold remap. apply Forall_forall. intros x Hx.
+    apply in_map_iff in Hx. destruct Hx as [o [<- Ho]].
+    destruct Hor as [Han|Hall].
+    + specialize (Hn Han). rewrite Forall_forall in Hn. eapply remap_boundary; eauto.
+    + destruct (nth_in_or_default o offs1 (blen t)) as [Hi|Hd].
+      * rewrite Forall_forall in Hall. apply Hall. exact Hi.
+      * rewrite Hd. apply boundary_end.
+Qed.
+
+Theorem normalize_anchored O n : forall t, anchored n = true -> all_bnd t (normalize O n t).
+Proof.
+  induction n as [lower strip|pat content|f|l IH] using norm_ind'; intros t Ha; cbn [anchored] in Ha.
+  - cbn [normalize all_bnd]. apply bert_anchored. exact Ha.
+  - discriminate.
+  - cbn [normalize all_bnd]. apply unicode_anchored.
+  - rewrite normalize_seq. apply seq_fold_anchored; [exact IH| |left; exact Ha].
+    cbn [good]. split; [apply chunks_identity|intros _; apply ss_seq].
+Qed.
+
+(* ------------------------------------------------------------------ panic freedom *)
+Lemma replace_go_total t content : forall ms last,
+  boundary t last -> matches_wf t last ms -> replace_go t content ms last <> None.
+Proof.
+  induction ms as [|[s e] r IH]; intros last Hb Hwf; cbn [replace_go matches_wf] in *.
+  - replace (slice_ok t last (blen t)) with true; [discriminate|].
+    symmetry. apply slice_ok_spec. split; [exact Hwf|]. split; [exact Hb|apply boundary_end].
+  - destruct Hwf as [Hls [Hse [Hbs [Hbe Hr]]]].
+    replace (slice_ok t last s) with true by (symmetry; apply slice_ok_spec; tauto).
+    specialize (IH e Hbe Hr). destruct (replace_go t content r e) as [[u offs]|]; [discriminate|].
+    congruence.
+Qed.
+
+Lemma seq_fold_no_panic O t (l : list norm) :
+  Forall (fun n => forall t', normalize O n t' <> Panic) l ->
+  forall acc, acc <> Panic -> fold_left (seq_step O (blen t)) l acc <> Panic.
+Proof.
+  induction 1 as [|n l Hn Hl IH]; intros acc Hacc; cbn [fold_left]; [exact Hacc|].
+  apply IH. unfold seq_step. destruct acc as [m offs1| |]; try congruence.
+  specialize (Hn m). destruct (normalize O n m); congruence.
+Qed.
+
+Theorem normalize_no_panic O n : find_wf O -> forall t, normalize O n t <> Panic.
+Proof.
+  intros Hwf. induction n as [lower strip|pat content|f|l IH] using norm_ind'; intros t.
+  - cbn [normalize]. discriminate.
+  - cbn [normalize]. destruct (o_find O pat t) as [ms|] eqn:Ef; [|discriminate].
+    pose proof (replace_go_total t content ms 0 (boundary_zero t) (Hwf _ _ _ Ef)) as Ht.
+    destruct (replace_go t content ms 0); [discriminate|congruence].
+  - cbn [normalize]. discriminate.
+  - rewrite normalize_seq. apply seq_fold_no_panic; [exact IH|discriminate].
+Qed.
+
+(* ------------------------------------------------------------------ Sequence = composition *)
+Lemma normalize_seq_snoc O l n t :
+  normalize O (NSeq (l ++ [n])) t = seq_step O (blen t) (normalize O (NSeq l) t) n.
+Proof. rewrite !normalize_seq, fold_left_app. reflexivity. Qed.
+
+(* ------------------------------------------------------------------ executable oracles *)
+Lemma sortedb_true l : sortedb l = true <-> StronglySorted le l.
+Proof.
+  split.
+  - intros H. apply Sorted_StronglySorted; [intros x y z; apply Nat.le_trans|].
+    induction l as [|x l IH]; [constructor|]. cbn [sortedb] in H. destruct l as [|y l'].
+    + repeat constructor.
+    + apply andb_true_iff in H. destruct H as [Hxy Hr]. apply Nat.leb_le in Hxy.
+      constructor; [apply IH; exact Hr|constructor; exact Hxy].
+  - intros H. apply StronglySorted_Sorted in H.
+    induction H as [|x l Hl IH Hx]; [reflexivity|]. cbn [sortedb]. destruct l as [|y l'].
+    + reflexivity.
+    + inversion Hx; subst. apply andb_true_iff. split; [apply Nat.leb_le; assumption|exact IH].
+Qed.
+
+Lemma list_eqb_nat_true a b : list_eqb Nat.eqb a b = true <-> a = b.
+Proof.
+  revert b; induction a as [|x a IH]; intros [|y b]; cbn [list_eqb]; split; try congruence; try discriminate.
+  - intros H. apply andb_true_iff in H. destruct H as [H1 H2]. apply Nat.eqb_eq in H1.
+    apply IH in H2. congruence.
+  - intros H. inversion H; subst. rewrite Nat.eqb_refl. cbn [andb]. apply IH. reflexivity.
+Qed.
+
+Lemma forallb_eq_repeat o ch : forallb (Nat.eqb o) ch = true -> ch = repeat o (length ch).
+Proof.
+  induction ch as [|x ch IH]; cbn [forallb length repeat]; intros H; [reflexivity|].
+  apply andb_true_iff in H. destruct H as [H1 H2]. apply Nat.eqb_eq in H1. subst x.
+  f_equal. apply IH. exact H2.
+Qed.
+
+Lemma char_atb_true t o c : char_atb t o c = true <-> In (o, c) (indexed t).
+Proof.
+  unfold char_atb. rewrite existsb_exists. split.
+  - intros [[o' c'] [Hin H]]. cbn [fst snd] in H. apply andb_true_iff in H.
+    destruct H as [H1 H2]. apply Nat.eqb_eq in H1. apply N.eqb_eq in H2. subst. exact Hin.
+  - intros H. exists (o, c). split; [exact H|]. cbn [fst snd].
+    rewrite Nat.eqb_refl, N.eqb_refl. reflexivity.
+Qed.
+
+Lemma chunk_okb_sound t c ch : chunk_okb t c ch = true -> chunk t c ch.
+Proof.
+  unfold chunk_okb. destruct ch as [|o rest]; [discriminate|]. intros H.
+  apply andb_true_iff in H. destruct H as [Hlen H]. apply Nat.eqb_eq in Hlen.
+  apply orb_true_iff in H. destruct H as [H|H]; apply andb_true_iff in H; destruct H as [H1 H2].
+  - apply forallb_eq_repeat in H2. rewrite H2, Hlen. constructor. apply boundaryb_true. exact H1.
+  - apply list_eqb_nat_true in H2. rewrite H2. apply chunk_id. apply char_atb_true. exact H1.
+Qed.
+
+Lemma chunk_okb_complete t c ch : chunk t c ch -> chunk_okb t c ch = true.
+Proof.
+  intros H. pose proof (chunk_length _ _ _ H) as Hl. pose proof (len8_pos c) as Hp.
+  destruct H as [o Hb|o Hin]; destruct (len8 c) as [|n] eqn:E; try lia; unfold chunk_okb.
+  - cbn [repeat]. change (o :: repeat o n) with (repeat o (S n)). rewrite E.
+    rewrite repeat_length, Nat.eqb_refl. cbn [andb].
+    apply orb_true_iff. left. apply andb_true_iff. split; [apply boundaryb_true; exact Hb|].
+    apply forallb_forall. intros x Hx. apply repeat_spec in Hx. subst. apply Nat.eqb_refl.
+  - cbn [seq]. change (o :: seq (S o) n) with (seq o (S n)). rewrite E.
+    rewrite seq_length, Nat.eqb_refl. cbn [andb].
+    apply orb_true_iff. right. apply andb_true_iff. split; [apply char_atb_true; exact Hin|].
+    apply list_eqb_nat_true. reflexivity.
+Qed.
+
+Lemma chunksb_true t u offs : chunksb t u offs = true <-> chunks t u offs.
+Proof.
+  split.
+  - revert offs; induction u as [|c r IH]; intros offs H; cbn [chunksb] in H.
+    + destruct offs; [constructor|discriminate].
+    + apply andb_true_iff in H. destruct H as [H1 H2].
+      rewrite <- (firstn_skipn (len8 c) offs). constructor; [apply chunk_okb_sound; exact H1|].
+      apply IH. exact H2.
+  - induction 1 as [|c u ch offs Hc Hu IH]; cbn [chunksb]; [reflexivity|].
+    pose proof (chunk_length _ _ _ Hc) as Hl.
+    rewrite <- Hl, firstn_app, Nat.sub_diag, firstn_all, firstn_O, app_nil_r.
+    rewrite skipn_app, Nat.sub_diag, skipn_all, skipn_O. cbn [app].
+    rewrite (chunk_okb_complete _ _ _ Hc), IH. reflexivity.
+Qed.
+
+Lemma forallb_boundaryb t offs : forallb (boundaryb t) offs = true <-> Forall (boundary t) offs.
+Proof.
+  rewrite forallb_forall, Forall_forall. split; intros H x Hx; apply boundaryb_true, H, Hx.
+Qed.
+
+(* ------------------------------------------------------------------ the check's oracles *)
+Definition impl_spec (t : list N) (bnd_clause : list N -> list nat -> Prop) (o : impl_outcome) : Prop :=
+  match o with
+  | IOk u offs nbytes valid =>
+      valid = true /\ nbytes = blen u /\ length offs = nbytes /\ monotone offs /\ bnd_clause u offs
+  | IErr => True
+  | IPanic => False
+  end.
+
+Lemma prop_ok_reflects c :
+  prop_ok c = true <->
+  impl_spec (c_text c) (fun _ offs => Forall (boundary (c_text c)) offs) (c_impl c).
+Proof.
+  unfold prop_ok, impl_spec. destruct (c_impl c) as [u offs nbytes valid| |]; [|tauto|split; [discriminate|tauto]].
+  rewrite !andb_true_iff, !Nat.eqb_eq, sortedb_true, forallb_boundaryb.
+  split.
+  - intros [[[[H1 H2] H3] H4] H5]. repeat split; auto using mono_idx.
+  - intros [H1 [H2 [H3 [H4 H5]]]]. repeat split; auto using mono_idx_inv.
+Qed.
+
+Lemma prop_ok_modF16_sound c :
+  prop_ok_modF16 c = true ->
+  impl_spec (c_text c)
+    (fun u offs => forall p, p < length offs ->
+       boundary (c_text c) (nth p offs 0) \/ F16_class (c_text c) u offs p) (c_impl c).
+Proof.
+  unfold prop_ok_modF16, impl_spec. destruct (c_impl c) as [u offs nbytes valid| |]; [|tauto|discriminate].
+  rewrite !andb_true_iff, !Nat.eqb_eq, sortedb_true, chunksb_true.
+  intros [[[[H1 H2] H3] H4] H5]. repeat split; auto using mono_idx.
+  apply chunks_excluding_F16. exact H5.
+Qed.
+
+Lemma regex_tab_ranges tab : 
+  forallb (fun e => match snd e with
+                    | None => true
+                    | Some ms => forallb (fun m => Nat.leb (fst m) (snd m)) ms
+                    end) tab = true ->
+  forall p t ms, regex_tab p t tab = Some ms -> Forall (fun m => fst m <= snd m) ms.
+Proof.
+  induction tab as [|[[p' t'] v] tab IH]; intros H p t ms Hl; cbn [regex_tab forallb snd] in *; [discriminate|].
+  apply andb_true_iff in H. destruct H as [H1 H2].
+  destruct ((p' =? p)%N && list_eqb N.eqb t' t).
+  - subst v. apply Forall_forall. intros m Hm. rewrite forallb_forall in H1.
+    apply Nat.leb_le. apply H1. exact Hm.
+  - eapply IH; eauto.
+Qed.
+
+Lemma tables_ok_find_ranges c : tables_ok c = true -> find_ranges (case_oracles c).
+Proof. intros H p t ms Hl. exact (regex_tab_ranges (c_regex c) H p t ms Hl). Qed.
+
+(* an implementation outcome equal to the model's passes the oracle weakened by F16 *)
+Lemma model_passes_modF16 c u offs :
+  tables_ok c = true -> model_of c = Ok u offs -> c_impl c = IOk u offs (blen u) true ->
+  prop_ok_modF16 c = true.
+Proof.
+  intros Ht Hm Hi. unfold prop_ok_modF16. rewrite Hi. unfold model_of in Hm.
+  pose proof (normalize_chunks _ _ _ _ _ Hm) as Hc.
+  pose proof (normalize_sorted _ _ _ _ _ (tables_ok_find_ranges c Ht) Hm) as Hs.
+  rewrite (chunks_length _ _ _ Hc), !Nat.eqb_refl. cbn [andb].
+  apply andb_true_iff. split; [apply sortedb_true; exact Hs|apply chunksb_true; exact Hc].
+Qed.
